@@ -126,12 +126,16 @@ func histScenarios(tier string, sets ...func(string) []*h.Scenario) []*h.Scenari
 // and auto-discovered bounds).
 func c04HistScenarios(tier string) []*h.Scenario {
 	var out []*h.Scenario
-	for _, v := range []string{"fleet", "setdesired", "auto"} {
+	for _, v := range []string{"fleet", "fleet-spot", "setdesired", "auto"} {
 		g := StdGroup("g1")
 		g.Opts.ScaleUpCoolDownPeriod = dur(2)
 		switch v {
 		case "fleet":
 			g.Opts.AWS.LaunchTemplateID, g.Opts.AWS.LaunchTemplateVersion = "lt-1", "1"
+		case "fleet-spot":
+			// spot capacity may be granted only in part (an answer with instances and an error entry)
+			g.Opts.AWS.LaunchTemplateID, g.Opts.AWS.LaunchTemplateVersion = "lt-1", "1"
+			g.Opts.AWS.Lifecycle = "spot"
 		case "auto":
 			g.Opts.MinNodes, g.Opts.MaxNodes = 0, 0
 			g.ASG.Min, g.ASG.Max = 1, 8
@@ -152,6 +156,10 @@ func c04HistScenarios(tier string) []*h.Scenario {
 			Events: func(hh *h.Hist, slot int) []h.Event {
 				ev := []h.Event{evASGEdit(gg.ASG.Name, gg.ASG.Min, 5), evASGEdit(gg.ASG.Name, gg.ASG.Min, 4), evASGEdit(gg.ASG.Name, gg.ASG.Min, 12),
 					evBurst(gg, 2, 3000), evClearAllPods(gg), evSkipSettle(), evRestart()}
+				if gg.Opts.AWS.Lifecycle == "spot" {
+					ev = append(ev, h.Event{Label: "fleet-answers-one-instance-short", Apply: func(hh *h.Hist) { hh.W.FleetShort = 1 }},
+						h.Event{Label: "fleet-answers-in-full", Apply: func(hh *h.Hist) { hh.W.FleetShort = 0 }})
+				}
 				if gg.Opts.MaxNodes > 0 {
 					// the operator pins the cloud group above max_nodes for a while (minimum 7 of at most 8) and
 					// releases it again: max_nodes stays the bound throughout
